@@ -4,7 +4,7 @@
    known q h = bits [0,8q] and [57,63] of h = what a bucket keeps next to an element of class q. *)
 From Coq Require Import ZArith List.
 From MomoCommon Require Import GenPrelude.
-From C12 Require Gen_Base Gen_O2 Gen_O2MP Gen_P4 Gen_One Known P4_Model P4_Slot P4_Bucket O2_Slot Chain O2_Bucket MP_Open2N2 TableO2 TableO2_Proofs TableP4 TableP4_Proofs TableOne TableOne_Proofs Refuted TableO2_Find SameCode Gen_O2set.
+From C12 Require Gen_Base Gen_O2 Gen_O2MP Gen_P4 Gen_One Known P4_Model P4_Slot P4_Bucket O2_Slot Chain O2_Bucket MP_Open2N2 TableO2 TableO2_Proofs TableP4 TableP4_Proofs TableOne TableOne_Proofs Refuted TableO2_Find SameCode Gen_O2set TableP4_Find Gen_P4A P4A_Refine.
 Import ListNotations.
 Local Open Scope Z_scope.
 
@@ -650,3 +650,85 @@ Theorem C12_open8_selected_bucket_same_code :
   Gen_O2set.GetNextBucketIndex = Gen_O2.GetNextBucketIndex.
 Proof. exact SameCode.open8_selected_bucket_same_code. Qed.
 Print Assumptions C12_open8_selected_bucket_same_code.
+
+(* ---------------------------------------------------------------------------------------------------------------
+   Grow round 2: BucketLimP4::Find / BucketOne::Find (generated) under specs; HashSet::pvFind for LimP4 and One. *)
+Theorem C12_limp4_bucket_find_spec :
+  forall b key h, exists r, TableP4.pbucket_find b key h = Ok r /\
+    ((r = 0 /\ forall i, 0 <= i < 4 -> ~ (TableP4.ps b i = Gen_P4.pvCalcShortHash h /\ TableP4.pky b i = key)) \/
+     (1 <= r <= 4 /\ TableP4.ps b (r - 1) = Gen_P4.pvCalcShortHash h /\ TableP4.pky b (r - 1) = key)).
+Proof. exact TableP4_Find.pbucket_find_spec. Qed.
+Print Assumptions C12_limp4_bucket_find_spec.
+
+Theorem C12_one_bucket_find_spec :
+  forall b key h, TableOne.obucket_find b key h =
+    (if andb (TableOne.ost b =? Gen_One.pvGetHashState h) (TableOne.oky b =? key) then 1 else 0).
+Proof. exact TableP4_Find.obucket_find_spec. Qed.
+Print Assumptions C12_one_bucket_find_spec.
+
+(* the modelled HashSet::Find (start bucket, then linear probes 1..2^L-1 while the bucket just examined WasFull) returns a
+   slot holding the key for EVERY key present in a LimP4 table satisfying the invariant, every hashCount 4..8 ... *)
+Theorem C12_limp4_find_returns_every_present_key :
+  forall H hash L t key, 0 <= L <= 63 -> TableP4_Proofs.PTinv H hash L t -> TableP4_Proofs.PPresent L t key ->
+    exists r, TableP4.pfind t L key (hash key) = Ok r /\ TableP4_Find.phit hash L t key r.
+Proof. exact TableP4_Find.pfind_present. Qed.
+Print Assumptions C12_limp4_find_returns_every_present_key.
+
+(* ... hence after migrating every element with reconstructed codes Find returns every key of the old table *)
+Theorem C12_limp4_find_after_growth :
+  forall H mm hash, 4 <= H <= 8 -> (forall k, 0 <= hash k < 2 ^ 64) -> 1 <= mm <= 4 ->
+  forall L newL told, 0 <= L -> L < newL <= 63 -> TableP4_Proofs.PTinv H hash L told ->
+    match TableP4.pmigrate H mm hash told L newL with
+    | Ok (_, tnew, _) => forall k, TableP4_Proofs.PPresent L told k ->
+                           exists r, TableP4.pfind tnew newL k (hash k) = Ok r /\ TableP4_Find.phit hash newL tnew k r
+    | Exn => True
+    | _ => False
+    end.
+Proof. exact TableP4_Find.pmigrate_find. Qed.
+Print Assumptions C12_limp4_find_after_growth.
+
+Theorem C12_one_find_returns_every_present_key :
+  forall hash L t key, 0 <= L <= 63 -> TableOne_Proofs.OTinv hash L t -> TableOne_Proofs.OPresent L t key ->
+    exists r, TableOne.ofind t L key (hash key) = Ok r /\ TableP4_Find.ohit hash t key r.
+Proof. exact TableP4_Find.ofind_present. Qed.
+Print Assumptions C12_one_find_returns_every_present_key.
+
+Theorem C12_one_find_after_growth :
+  forall hash, (forall k, 0 <= hash k < 2 ^ 64) ->
+  forall L newL told, 0 <= L -> L < newL <= 63 -> TableOne_Proofs.OTinv hash L told ->
+    match TableOne.omigrate hash told L newL with
+    | Ok (_, tnew) => forall k, TableOne_Proofs.OPresent L told k ->
+                        exists r, TableOne.ofind tnew newL k (hash k) = Ok r /\ TableP4_Find.ohit hash tnew k r
+    | Exn => True
+    | _ => False
+    end.
+Proof. exact TableP4_Find.omigrate_find. Qed.
+Print Assumptions C12_one_find_after_growth.
+
+(* BucketOne::Clear (generated) frame *)
+Theorem C12_one_clear_frame :
+  forall st, Gen_One.IsFull (Gen_One.Clear st) = false /\ Gen_One.WasFull (Gen_One.Clear st) = false.
+Proof. exact TableP4_Find.one_clear_frame. Qed.
+Print Assumptions C12_one_clear_frame.
+
+(* the REAL BucketLimP4::AddCrt (generated with all its branches: pvAdd0<min>, pvAdd0<max>, pvAdd<1..3>, spare memory) refines
+   the hand composition used by every LimP4 theorem: same mShortHashes as P4_Model.p4_add, and the memory-pool index
+   (pointer state + 1) moves exactly as TableP4's bookkeeping says.  A wrong slot in any branch's pvSetHashProbe breaks this. *)
+Theorem C12_limp4_generated_addcrt_refines_model :
+  forall H mm s ptr stt x L probe m0a m0b m1a m1b m2a m2b m3a m3b m4a m4b,
+    0 <= stt < 4 -> mm = 2 ->
+    let c := Gen_P4.pvGetCount s in let mpi := stt + 1 in
+    0 <= c < 4 -> c <= mpi -> (ptr = 0 <-> c = 0) -> (c = 0 -> mpi = mm \/ mpi = 4) ->
+    exists r s' ptr' stt',
+      Gen_P4A.AddCrt H mm s ptr stt x L probe m0a m0b m1a m1b m2a m2b m3a m3b m4a m4b = Ok (r, s', ptr', stt') /\
+      P4_Model.p4_add H s x L probe = Ok s' /\
+      stt' + 1 = (if c =? 0 then mpi else if c =? mpi then mpi + 1 else mpi) /\ 0 <= stt' < 4 /\
+      (ptr' = ptr \/ ptr' = m0a \/ ptr' = m1a \/ ptr' = m2a \/ ptr' = m3a \/ ptr' = m4a).
+Proof. exact P4A_Refine.p4a_addcrt_refines. Qed.
+Print Assumptions C12_limp4_generated_addcrt_refines_model.
+
+(* generated pvGetMemPoolIndex / WasFull: the index is the pointer's state bits + 1, WasFull <-> index = maxCount *)
+Theorem C12_limp4_generated_wasfull :
+  forall s ptr stt, 0 <= stt < 4 -> Gen_P4A.WasFull s ptr stt = (stt + 1 =? 4).
+Proof. exact P4A_Refine.p4a_wasfull. Qed.
+Print Assumptions C12_limp4_generated_wasfull.
